@@ -760,3 +760,10 @@ Theorem report_unexpected_matches_check E fuel r st' :
                  (t_position (run_tracker (i_start (e_inp E)) (tr st')))
                  (ev (EEnter r' (t_position (run_tracker (i_start (e_inp E)) (tr st')))) st1)) = Some true.
 Proof. intros Hf. apply unexpected_matches_trace. exact (try_check_fail_sound E fuel r st' Hf). Qed.
+
+(* [justified] is not vacuous: no exit event can claim that a rule with body AlwaysFail matched *)
+Lemma justified_discriminates E r p : r_body (e_rules E r) = TFail -> ~ justified E (EExit r p true).
+Proof.
+  intros Hb (fuel & inh & st1 & H). rewrite Hb in H.
+  destruct fuel as [|n]; cbn [tcheck step_c verdict] in H; discriminate.
+Qed.
